@@ -158,8 +158,47 @@ def _case(rng: Rng, d, tier, mode=None):
 EXHAUSTIVE = dict(quick=False, thorough=True)
 
 
+def _dtype_cases():
+    """Value dtypes / containers of every array argument, on mathematically identical inputs (integer responses and
+    grids, weights 0, 1/4, 1/2, 3/2, 2, … or integers or 0/1, integer penalties): the exact model is fed the same numbers."""
+    rng = Rng("C05-dtype-block")
+    ydts = ["int64", "int32", "float32", "float64"]
+    wkinds = [("real", "float64"), ("real", "float32"), ("real", "list"), ("int", "int64"), ("int", "int32"), ("bool", "bool"), ("none", None)]
+    xdts = ["float64", "int64", "int32", "list", "float32"]
+    pens = ["int", "npint", "list", "array", None]
+    k = 0
+    for d in (1, 2):
+        for ydt in ydts:
+            for wk, wdt in (wkinds if d == 1 else wkinds[:2] + wkinds[3:4] + wkinds[5:6]):
+                k += 1
+                dims = []
+                for _ in range(d):
+                    p = rng.randint(1, 3)
+                    nseg = rng.randint(1, 3 if d == 1 else 2)
+                    m = rng.randint(4, 9 if d == 1 else 5)
+                    x = sorted(rng.sample(range(0, 3 * m), m))
+                    dims.append(dict(nseg=nseg, p=p, lam=rs(Fraction(rng.choice([1, 2, 4]))), x=[rs(Fraction(v)) for v in x], wide=False,
+                                     dmin=rs(Fraction(x[0])), dmax=rs(Fraction(x[-1]))))
+                n = int(np.prod([len(dd["x"]) for dd in dims]))
+                y = [Fraction(rng.randint(-8, 8)) for _ in range(n)]
+                if wk == "none":
+                    w = None
+                elif wk == "real":
+                    w = [rng.choice([Fraction(1, 4), Fraction(1, 2), Fraction(3, 2), Fraction(2), Fraction(3, 4), Fraction(1)]) for _ in range(n)]
+                elif wk == "int":
+                    w = [Fraction(rng.choice([0, 1, 2, 3, 1])) for _ in range(n)]
+                else:
+                    w = [Fraction(rng.random() < 0.8) for _ in range(n)]
+                if w is not None and not any(w):
+                    w[0] = Fraction(1)
+                yield dict(kind=f"fit{d}", d=d, ord=rng.randint(1, 2), dims=dims, y=[rs(v) for v in y], w=None if w is None else [rs(v) for v in w],
+                           wk="dtype-" + wk, yk="rand", int_opts=False, history=False, default_penalty=False, a="2", c="-1", sub=3 * k + 1,
+                           wscale="1/4", dtypes=dict(y=ydt, w=wdt, x=xdts[k % len(xdts)], pen=pens[k % len(pens)]))
+
+
 def gen_cases(rng: Rng, tier):
     _TIER[0] = tier
+    yield from _dtype_cases()
     n = dict(quick=136, thorough=1400)[tier]
     plan = [1, 2, 1, 2, 3, 1, 2, 2]
     if tier == "thorough":
@@ -223,14 +262,36 @@ def _new(case):
     return PSplines(n_segments=np.array([dd["nseg"] for dd in dims]), degree=np.array([dd["p"] for dd in dims]), order_penalty=case["ord"])
 
 
+_NP = {"int64": np.int64, "int32": np.int32, "float32": np.float32, "float64": np.float64, "bool": np.bool_}
+
+
+def _cast(a, dt):
+    """The same numbers in another storage type (only when the conversion is lossless, so that the mathematical
+    input — hence the exact model's answer — is unchanged); 'list' gives nested Python lists."""
+    if a is None or not dt:
+        return a
+    a = np.asarray(a)
+    if dt == "list":
+        return a.tolist()
+    b = a.astype(_NP[dt])
+    return b if np.array_equal(b.astype(np.float64), a.astype(np.float64)) else a
+
+
 def _fit(ps, case, y, xs, w):
     dims = case["dims"]
+    dt = case.get("dtypes") or {}
+    y = _cast(y, dt.get("y"))
+    w = _cast(w, dt.get("w"))
+    xs = [_cast(x, dt.get("x")) for x in xs]
     kw = {}
     if any(dd["wide"] for dd in dims):
         kw["domain_min"] = [float(F(dd["dmin"])) for dd in dims]
         kw["domain_max"] = [float(F(dd["dmax"])) for dd in dims]
     pen = None if case.get("default_penalty") else tuple(float(F(dd["lam"])) for dd in dims)
-    x_arg = xs[0] if case["d"] == 1 and case["sub"] % 3 != 0 else list(xs)
+    if pen is not None and dt.get("pen") and all(v == int(v) for v in pen):
+        pen = {"int": tuple(int(v) for v in pen), "npint": tuple(np.int64(v) for v in pen), "list": [float(v) for v in pen],
+               "array": np.array(pen, dtype=np.int32)}[dt["pen"]]
+    x_arg = xs[0] if case["d"] == 1 and case["sub"] % 3 != 0 and not isinstance(xs[0], list) else list(xs)
     ps.fit(y, x_arg, sample_weights=w, penalty=pen, **kw)
     return ps
 
@@ -448,7 +509,7 @@ def run_impl(case):
     out["nodes_ref"] = np.asarray(ps.y_hat)[np.ix_(*[idx for idx, _ in subs])].ravel().tolist()
     # the bases the fit used (implementation's own; their correctness is C18)
     Bs = [_basis_bsplines(x, dd["nseg"] + dd["p"], dd["p"], float(F(dd["dmin"])), float(F(dd["dmax"]))) for x, dd in zip(xs, case["dims"])]
-    out["basis_ok"] = bool(all(np.allclose(b1, b2, rtol=0, atol=1e-12) for b1, b2 in zip(ps.basis, Bs)))
+    out["basis_ok"] = bool(all(np.allclose(b1, b2, rtol=0, atol=max(1e-12, _lowprec(case))) for b1, b2 in zip(ps.basis, Bs)))
     # ---- dense Kronecker reference (independent NumPy code)
     ref = _dense_ref(Bs, w, y, [float(F(dd["lam"])) for dd in case["dims"]], case["ord"])
     out["ref"] = {k: (v.tolist() if isinstance(v, np.ndarray) else v) for k, v in ref.items()}
@@ -576,6 +637,11 @@ def _backward_ok(model):
     return all(abs(a) <= Fraction(1, 10 ** 9) * b + Fraction(1, 10 ** 290) for a, b in zip(r, s))
 
 
+def _lowprec(case):
+    """float32 grids are legitimately processed in single precision (measured on the unchanged tree: 1.5e-6 relative)."""
+    return 5e-4 if (case.get("dtypes") or {}).get("x") == "float32" else 0.0
+
+
 def _close_vec(fs, qs, rtol, mask=None):
     scale = max([abs(float(q)) for q in qs] + [1e-300])
     for i, (f, q) in enumerate(zip(fs, qs)):
@@ -615,8 +681,8 @@ def compare(case, impl, model):
         _STATS["max_dev_yhat"] = max(_STATS["max_dev_yhat"], dev(impl["y_hat"], yq))
         _STATS["max_dev_beta"] = max(_STATS["max_dev_beta"], dev(impl["beta"], bq))
         _STATS["max_dev_hat"] = max(_STATS["max_dev_hat"], max([abs(f - float(q)) for f, q in zip(impl["hat"], hq)] + [0.0]))
-        iy = _close_vec(impl["y_hat"], yq, 1e-7)
-        ib = _close_vec(impl["beta"], bq, 1e-7)
+        iy = _close_vec(impl["y_hat"], yq, max(1e-7, _lowprec(case)))
+        ib = _close_vec(impl["beta"], bq, max(1e-7, _lowprec(case)))
         if iy is not None or ib is not None:
             _STATS["backward_used"] += 1
             if not _backward_ok(model):
@@ -624,7 +690,7 @@ def compare(case, impl, model):
                     ds.append(f"y_hat[{iy}]: impl {impl['y_hat'][iy]!r} vs exact {float(yq[iy])!r}; backward error {bw:.3g}")
                 else:
                     ds.append(f"beta_hat[{ib}]: impl {impl['beta'][ib]!r} vs exact {float(bq[ib])!r}; backward error {bw:.3g}")
-        htol = max(1e-7, 1e-13 * kappa)
+        htol = max(1e-7, 1e-13 * kappa, _lowprec(case))
         for i, (f, q) in enumerate(zip(impl["hat"], hq)):
             if not math.isfinite(f) or abs(f - float(q)) > htol:
                 ds.append(f"hat[{i}]: impl {f!r} vs exact {float(q)!r} (tol {htol:.2g}, kappa {kappa:.2g})")
@@ -643,7 +709,7 @@ def compare(case, impl, model):
         ds.append(f"predict: {len(impl['pred_sub'])} values vs model {len(pq)}")
     else:
         for i, (f, q) in enumerate(zip(impl["pred_sub"], pq)):
-            if not math.isfinite(f) or abs(Fraction(f) - q) > Fraction(1e-9) * Fraction(bscale):
+            if not math.isfinite(f) or abs(Fraction(f) - q) > Fraction(max(1e-9, _lowprec(case))) * Fraction(bscale):
                 ds.append(f"predict[{i}]: impl {f!r} vs exact {float(q)!r}")
                 break
     return ds
@@ -675,7 +741,7 @@ def oracle(case, impl):
     if not impl["basis_ok"]:
         bad("basis", "the stored bases are not _basis_bsplines on the fit domain")
     well = math.isfinite(cond) and cond < 1e11
-    tol = 1e-12 * max(cond, 1e3) if well else None
+    tol = max(1e-12 * max(cond, 1e3), _lowprec(case)) if well else None
     ys = max(np.abs(np.array(ref["y_hat"])).max(), 1e-300)
     if well:
         e = np.abs(y_hat - np.array(ref["y_hat"])).max() / ys
@@ -701,7 +767,7 @@ def oracle(case, impl):
     a, c = float(F(case["a"])), float(F(case["c"]))
     want = a * y_hat + c * np.array(lin["y2"])
     sc = max(np.abs(want).max(), abs(a) * np.abs(y_hat).max(), 1e-300)
-    ltol = 1e-12 * max(cond, 1e3) if well else (min(1e-2, max(1e-5, 1e-14 * cond)) if math.isfinite(cond) and cond < 1e14 else 1e-4)
+    ltol = max(1e-12 * max(cond, 1e3), _lowprec(case)) if well else (min(1e-2, max(1e-5, 1e-14 * cond)) if math.isfinite(cond) and cond < 1e14 else 1e-4)
     e = np.abs((np.array(lin["comb"]) - want)[pos]).max() / sc if pos.any() else 0.0
     if not e <= ltol:
         bad("linear", f"fit(a y1 + c y2) differs from a fit(y1) + c fit(y2) by {e:.3g} (relative)", causes)
@@ -724,7 +790,7 @@ def oracle(case, impl):
     if "poly" in impl:
         yp, fp = np.array(impl["poly"]["y"]), np.array(impl["poly"]["fit"])
         e = np.abs((fp - yp)[pos]).max() / max(np.abs(yp).max(), 1e-300) if pos.any() else 0.0
-        if not e <= (1e-11 * max(cond, 1e3) if well else max(1e-4, ltol)):
+        if not e <= (max(1e-11 * max(cond, 1e3), _lowprec(case)) if well else max(1e-4, ltol)):
             within = all(case["ord"] <= dd["p"] + 1 for dd in case["dims"])
             bad("polynomial", f"a polynomial of degree {case['ord'] - 1} per coordinate is not reproduced: max error {e:.3g} "
                 f"(degrees {[dd['p'] for dd in case['dims']]}, order {case['ord']}, penalties {[dd['lam'] for dd in case['dims']]})",
@@ -737,10 +803,10 @@ def _oracle_predict(case, impl, vs, bad, y_hat, causes):
     if not impl["pred_none_is_yhat"]:
         bad("predict_fit_grid", "predict() does not return y_hat")
     e = np.abs(np.array(impl["pred_fit"]) - y_hat).max() / max(np.abs(y_hat).max(), 1e-300)
-    if not e <= 1e-10:
+    if not e <= max(1e-10, _lowprec(case)):
         bad("predict_fit_grid", f"predict(x_fit) differs from y_hat by {e:.3g}")
     e = np.abs(np.array(impl["pred_nodes"]) - np.array(impl["nodes_ref"])).max() / max(np.abs(y_hat).max(), 1e-300)
-    if not e <= 1e-10:
+    if not e <= max(1e-10, _lowprec(case)):
         bad("predict_fit_grid", f"predict on a subset of the fitting grid differs from the fitted values there by {e:.3g}", ["query_subset"])
     # nothing shared between instances
     if impl.get("interleave_bad"):
